@@ -315,6 +315,12 @@ def worker(kp, job):
                     cells[rng.choice(cols)] = rng.choice(LITERALS)
                     rows[k] = '\t'.join(cells)
             text = g.nl.join(rows)
+        if rng.random() < 0.3:
+            # blank lines (leading, interior, trailing): they are no stage and must not shift the lines below them
+            rows = text.split(g.nl)
+            for _ in range(rng.randint(1, 3)):
+                rows.insert(rng.randrange(len(rows) + 1), '')
+            text = g.nl.join(rows)
         viol, doc, dump = check_tree(kp, text, 'generated')
         bad = docs.bad_cells(kp, text)
         if idx % 2 == 0:
@@ -365,6 +371,9 @@ def run(chk):
                '**kern\n4c\n*-\n!x\n', '**kern\n4c\n*-\n*-\n', '**kern\n4c\t\n*-\n']
     for t in surplus:
         jobs.append(('text', ('surplus', t)))
+    for t in ['**kern\n\n4c\n4d\n*-\n', '\n**kern\t**text\n4c\tla\n\n\n4d\tli\n*-\t*-\n', '**kern\t**kern\n4c\t4d\n=1\t=1\n\n4e\t4f\n*-\t*-\n\n',
+              '!! c\n\n**kern\n*^\n\n4c\t4d\n*v\t*v\n\n*-\n']:
+        jobs.append(('text', ('literal', t)))
     ngen = core.budget(chk, full, 90, 600)
     for i in range(ngen):
         jobs.append(('gen', (chk.seed, i)))
@@ -372,7 +381,7 @@ def run(chk):
                 'thorough tier; quick keeps all of depth <= 2 and a seeded third of depth 3), random MIXED operator rows (several join '
                 'groups, splits and terminators on one line; depth <= 6, width <= 8), EVERY operator row with a join group over 4 and 5 '
                 '(6 in the thorough tier) sub-spines of one spine, literal cells (quotes, commas, '
-                'spaces, non-ASCII, separators), rows with surplus cells / after the last terminator, and generated '
+                'spaces, non-ASCII, separators), blank lines (leading, interior, trailing), rows with surplus cells / after the last terminator, and generated '
                 'documents with literal cells injected; non-trivial = distinct text')
     results = engine.pmap(worker, jobs)
     engine.settle(chk, results, model)
